@@ -30,7 +30,7 @@ func listTransactions(w http.ResponseWriter, r *http.Request) {
 
 	cursor, err := l.ListTransactions(r.Context(), paginatedQuery)
 	if err != nil {
-		common.HandleCommonErrors(w, r, err)
+		common.HandleCommonPaginationErrors(w, r, err)
 		return
 	}
 
